@@ -188,3 +188,44 @@ package oj
 //@     with base = 0
 //@     with qi = spec.Init(!p.OnlyOne)
 //@     use spec.Run.unfold(spec.Init(!p.OnlyOne), S, 0)
+
+// ---------------------------------------------------------------------------
+// Writer entry points: from ANY prior state of a reused or pooled Writer, encoding starts with an empty buffer, the
+// destination of this call (none for JSON, w for Write) and the append functions the options of this call select.
+
+//@ unit writers
+
+//@ pred WFuncs(wr) = ((wr.Tab || 0 < wr.Indent) ==> wr.appendArray == appendArray && wr.appendDefault == appendDefault
+//@        && (wr.Sort ==> wr.appendObject == appendSortObject) && (!wr.Sort ==> wr.appendObject == appendObject))
+//@     && (!(wr.Tab || 0 < wr.Indent) ==> wr.appendArray == tightArray && wr.appendDefault == tightDefault
+//@        && (wr.Sort ==> wr.appendObject == tightSortObject) && (!wr.Sort ==> wr.appendObject == tightObject))
+
+//@ func (*Writer).calcFieldsIndex
+//@   modifies wr.findex
+
+// Assumed frame of the encoders (not verified here): they write the buffer and raise, nothing else of the Writer.
+//@ func (*Writer).appendJSON
+//@   trusted
+//@   raises
+//@   modifies wr.buf, heap(wr.buf)
+//@ func (*Writer).colorJSON
+//@   trusted
+//@   raises
+//@   modifies wr.buf, heap(wr.buf)
+
+//@ func (*Writer).MustJSON
+//@   raises
+//@   modifies everything
+//@   at call appendJSON#0
+//@     assert [C07 C04 start] isnil(wr.w) && len(wr.buf) == 0 && 0 < wr.InitSize && WFuncs(wr)
+//@   at call colorJSON#0
+//@     assert [C07 C04 start] isnil(wr.w) && len(wr.buf) == 0 && 0 < wr.InitSize
+
+//@ func (*Writer).MustWrite
+//@   raises
+//@   requires w != nil
+//@   modifies everything
+//@   at call appendJSON#0
+//@     assert [C07 C04 start] wr.w == w && len(wr.buf) == 0 && 0 < wr.InitSize && 0 < wr.WriteLimit && WFuncs(wr)
+//@   at call colorJSON#0
+//@     assert [C07 C04 start] wr.w == w && len(wr.buf) == 0 && 0 < wr.InitSize && 0 < wr.WriteLimit
